@@ -4,7 +4,9 @@ package obialign
 
 // C10 (second part) — LocatePattern, the end-gap-free DP that re-aligns the indel hits of obiapat.
 // Exhaustive: every pattern of length 1..3 over the 15 IUPAC codes (+ length 4 over {A,C,G,T,N,R,V}) x every
-// sequence over {a,c,g,t} strictly longer than the pattern (documented precondition) up to length 6 (7 thorough).
+// non-empty sequence over {a,c,g,t} up to length 6 (7 thorough) - also the sequences NOT longer than the pattern: the old
+// precondition "fragment longer than the pattern" was removed from LocatePattern (fix 631dde9) because BestMatch and
+// AllMatches hand it such fragments for reads about as long as the primer.
 // Demanded: the returned span lies inside the sequence and the returned error count equals the edit distance between
 // the pattern and that span (IUPAC classes match at cost 0). "The returned count is the minimum over all substrings"
 // is what makes obiapat's AllMatches keep a hit; it is reported under its own key.
@@ -175,6 +177,9 @@ func TestVerifC10Locate(t *testing.T) {
 		if score > 0 {
 			r.Count("located_with_errors", 1)
 		}
+		if len(seq) <= len(pat) {
+			r.Count("located_in_fragment_not_longer_than_pattern", 1)
+		}
 		if from == 0 || to == len(seq) {
 			r.Count("located_touching_an_end", 1)
 		}
@@ -196,8 +201,8 @@ func TestVerifC10Locate(t *testing.T) {
 	pats := verifkit.AllStrings("ACGTRYMKSWBDHVN", 1, 3)
 	pats = append(pats, verifkit.AllStrings("ACGTNRV", 4, 4)...)
 	r.Bound("locate_patterns", "all of length 1..3 over the 15 IUPAC codes + length 4 over {A,C,G,T,N,R,V}")
-	r.Bound("locate_sequences", fmt.Sprintf("all over acgt of length (pattern length+1)..%d", maxL))
-	seqs := verifkit.AllStrings("acgt", 2, maxL)
+	r.Bound("locate_sequences", fmt.Sprintf("all over acgt of length 1..%d (shorter than, as long as, longer than the pattern)", maxL))
+	seqs := verifkit.AllStrings("acgt", 1, maxL)
 	for k, pat := range pats {
 		if !r.Mine(k) {
 			continue
@@ -205,9 +210,6 @@ func TestVerifC10Locate(t *testing.T) {
 		r.State("locate-pattern:" + pat)
 		masks := c10lpMasks(pat)
 		for _, s := range seqs {
-			if len(s) <= len(pat) {
-				continue
-			}
 			eval(pat, masks, []byte(s))
 		}
 		if r.Expired() {
@@ -216,5 +218,6 @@ func TestVerifC10Locate(t *testing.T) {
 	}
 	r.RequireNonVacuous("located_with_errors")
 	r.RequireNonVacuous("located_touching_an_end")
+	r.RequireNonVacuous("located_in_fragment_not_longer_than_pattern")
 	r.Sample(c10lpCase{Part: "locate", Pat: "ACV", Seq: "ttagcg"})
 }
